@@ -113,6 +113,10 @@ class C10(Check):
             for b in spaces.U(3, 4, 4):
                 for s in (1, 2):
                     yield dict(ecase.make(3, s, b), cfgs=configs.DEFAULTS[::3] + extra[2:], full=False)
+                for wd in ((1,), (3,)):
+                    # several identical ballots that rank only a withdrawn candidate: merged they are dropped once, split they are dropped line by line
+                    if families.valid_after_removal(3, 1, b, wd) and any(m >= 2 and set(r) <= set(wd) for m, r in b):
+                        yield dict(ecase.make(3, 1, b, wd=wd), cfgs=D[:4], full=False, allperm=False)
         for b in (spaces.W(3, 2, 3, (2, 3)) if q else spaces.W(3, 3, 3, (2, 3, 5))):
             for s in (1, 2):
                 yield dict(ecase.make(3, s, b), cfgs=D[::3] if q else D, full=False, allperm=True)
